@@ -126,7 +126,7 @@ func (e *evidence) write(sc *scratch, wall time.Duration) error {
 		stepStats["max_per_run"] = e.steps[n-1]
 	}
 	cov["simulated_steps"] = stepStats
-	cov["simulated_time"] = "the library reads no clock; progress is measured in instrumented steps (function entries and loop iterations)"
+	cov["simulated_time"] = "the library reads no clock; progress is measured in instrumented steps (function entries and loop iterations); statement-boundary points are scheduling points only"
 	if wall > 0 {
 		cov["runs_per_hour"] = int(float64(e.evaluations) / wall.Hours())
 	}
@@ -137,7 +137,8 @@ func (e *evidence) write(sc *scratch, wall time.Duration) error {
 	cov["known_findings_reported"] = e.knownLines
 	cov["known_finding_hits"] = e.knownHits
 	cov["instrumentation"] = map[string]int{"functions": sc.sites.Funcs, "loops": sc.sites.Loops, "map_ranges": sc.sites.MapRanges,
-		"s_points": sc.sites.SPoints, "make_guards": sc.sites.Makes, "files": sc.sites.Files}
+		"s_points": sc.sites.SPoints, "make_guards": sc.sites.Makes, "files": sc.sites.Files,
+		"statement_points": sc.sites.Stmts, "sync_critical_sections": sc.sites.SyncShims, "sync_or_channel_uses_not_modelled": len(sc.sites.Unsupported)}
 	cov["components"] = map[string]interface{}{
 		"real":      []string{"every tabula package, from /repo's current working tree (instrumented copy)", "Go standard library", "golang.org/x/net/html", "golang.org/x/text"},
 		"simulated": e.pi.simulated,
